@@ -279,8 +279,14 @@ func symBinop(e *explorer, op token.Token, t types.Type, x, y value) value {
 		case token.AND_NOT:
 			return symI{"(bvand " + a + " (bvnot " + c + "))", k}
 		case token.EQL:
+			if a == c {
+				return true
+			}
 			return symB{"(= " + a + " " + c + ")"}
 		case token.NEQ:
+			if a == c {
+				return false
+			}
 			return symB{"(not (= " + a + " " + c + "))"}
 		case token.LSS:
 			return symB{su("bvslt", "bvult")}
@@ -391,7 +397,19 @@ func symConv(e *explorer, tdst, tsrc types.Type, x value) value {
 			// fit. Model: fresh unconstrained bit-vector (counted).
 			bits := kindBits(dk)
 			xt := e.abbrev(x.t, f64)
-			u := e.freshVar("convundef", bvsort(bits))
+			// out-of-range results are implementation-defined but a function of
+			// the input on a given platform: uninterpreted function of x
+			sg := "u"
+			if kindSigned(dk) {
+				sg = "s"
+			}
+			ufn := fmt.Sprintf("uf_f2i_%s%d", sg, bits)
+			decl := "(declare-fun " + ufn + " (" + f64 + ") " + bvsort(bits) + ")"
+			e.sol.declareRaw(ufn, decl)
+			if e.crs != nil {
+				e.crs.declareRaw(ufn, decl)
+			}
+			u := "(" + ufn + " " + xt + ")"
 			e.stats.ConvUndef++
 			var inr, cv string
 			if kindSigned(dk) {
